@@ -109,6 +109,20 @@ Theorem C11_legacy_custom_order_refuted :
 Proof. exact legacy_custom_order_refuted. Qed.
 Print Assumptions C11_legacy_custom_order_refuted.
 
+(* The part of the refuted statement that holds (same statement as C11_legacy_total, kept under the _partial
+   name next to its _refuted counterpart).  FULL statement, refuted above:
+     forall first last a b c, valid_id a -> valid_id b -> valid_id c -> <strict total order laws>.
+   Missing: order lists in which another kind (or "no rank") shares the rank of Namespace. *)
+Theorem C11_legacy_custom_order_partial :
+  forall first last, namespace_isolated first last = true ->
+  forall a b c, valid_id a = true -> valid_id b = true -> valid_id c = true ->
+    legacy_less first last a a = false /\
+    (legacy_less first last a b = true -> legacy_less first last b a = false) /\
+    (legacy_less first last a b = true -> legacy_less first last b c = true -> legacy_less first last a c = true) /\
+    (a <> b -> legacy_less first last a b = true \/ legacy_less first last b a = true).
+Proof. exact legacy_total. Qed.
+Print Assumptions C11_legacy_custom_order_partial.
+
 (* ================= composition ================= *)
 
 (* accumulate is exactly: "every nested collision check passes" ? the flattened, renamed documents : error *)
@@ -172,6 +186,18 @@ Theorem C11_permute_legacy_refuted :
     build_gen cs_none (SortLegacy first last) t' = Ok out' /\ out <> out'.
 Proof. exact permute_legacy_refuted. Qed.
 Print Assumptions C11_permute_legacy_refuted.
+
+(* The part that holds (= C11_permute_legacy under the _partial name).  FULL statement, refuted above:
+     forall first last t t' out, tperm t t' -> build (SortLegacy first last) t = Ok out -> valid_ids out ->
+       build (SortLegacy first last) t' = Ok out.
+   Missing: order lists that do not isolate Namespace. *)
+Theorem C11_permute_legacy_partial :
+  forall cs pfx_fs sfx_fs pfx_skip sfx_skip first last t t' out,
+    namespace_isolated first last = true -> tperm t t' ->
+    build cs pfx_fs sfx_fs pfx_skip sfx_skip (SortLegacy first last) t = Ok out -> valid_ids out ->
+    build cs pfx_fs sfx_fs pfx_skip sfx_skip (SortLegacy first last) t' = Ok out.
+Proof. exact build_permute_legacy. Qed.
+Print Assumptions C11_permute_legacy_partial.
 
 (* Nesting, for every resource of every tree (generated field-spec and skip tables): a resource of the output
    comes from a document d lying below layers (p1,s1) ... (pk,sk) (outermost first) and its name is
